@@ -326,6 +326,8 @@ func importFindings(cx *CheckCtx, runs []*CaseRun, prop string) []Finding {
 		pool := poolOf(cr.Case)
 		ri := -1
 		earlier := map[string]bool{}
+		fixed := map[string]bool{} // path seen in an earlier output -> dot-imported at that moment
+		var now *FileTruth
 		noteSeen := func(src string, fragment bool) {
 			if fragment {
 				src = "package p\n" + src
@@ -334,13 +336,27 @@ func importFindings(cx *CheckCtx, runs []*CaseRun, prop string) []Finding {
 				for i := range usesOf(f) {
 					if i < len(pool) {
 						earlier[pool[i]] = true
+						if _, ok := fixed[pool[i]]; !ok && now != nil {
+							fixed[pool[i]] = now.isDot(pool[i])
+						}
 					}
 				}
 			}
 		}
 		for oi, o := range cr.Case.Ops {
+			if o.Kind == OpAnon {
+				// Anon overwrites the entry: the path is no longer registered under a name
+				for _, p := range o.Str {
+					delete(fixed, p)
+				}
+			}
 			if !o.IsRender() {
 				continue
+			}
+			now = truthOf(cr.Case, o.F, oi)
+			now.Fixed = map[string]bool{}
+			for p, d := range fixed {
+				now.Fixed[p] = d
 			}
 			ri++
 			if ri >= len(cr.Real) {
@@ -355,6 +371,7 @@ func importFindings(cx *CheckCtx, runs []*CaseRun, prop string) []Finding {
 			cx.Stats.OracleCases++
 			t := truthOf(cr.Case, o.F, oi)
 			t.Pool = pool
+			t.Fixed = now.Fixed
 			t.EarlierSeen = map[string]bool{}
 			for p := range earlier {
 				t.EarlierSeen[p] = true
@@ -374,7 +391,8 @@ func importFindings(cx *CheckCtx, runs []*CaseRun, prop string) []Finding {
 						k, _ := strconv.Atoi(m[2])
 						p, shape := "C03", "qualifier-not-an-identifier"
 						if k < len(pool) {
-							if h, ok := t.Hints[pool[k]]; ok && h[0] == "." {
+							if h, ok := t.Hints[pool[k]]; (ok && h[0] == ".") || t.EverDot[pool[k]] {
+								// (declared a dot-import now, or earlier in this File's history)
 								p, shape = "C06", "dot-import-not-bare"
 							}
 						}
@@ -670,6 +688,66 @@ func registerImportChecks() {
 			reg := 0
 			for _, s := range importBody(r, pool, 2*len(pool.Paths)) {
 				c.Ops = append(c.Ops, addToFile(r, 0, s, &reg)...)
+			}
+			c.Ops = append(c.Ops, Op{Kind: OpRender, F: 0})
+			cs = append(cs, c)
+		}
+		// re-hint histories: a path declared a dot-import (or named) is rendered, then hinted
+		// differently (a name for a dot-import, "." for a named one, a bulk ImportNames map), more
+		// code is added, and the File (or a fragment with it) is rendered again: what was printed
+		// stays (C08), what was not printed yet follows the newest hint
+		for i := 0; i < cx.N(400, 10000); i++ {
+			r := cx.R.Fork()
+			pool := &PathPool{Paths: []string{"a.com/m", "b.org/x/m", "c.io/lib/matchers", "d.net/other", "e.dev/third/v2", "fmt", "strings"}}
+			c := &Case{ID: fmt.Sprintf("C06-rehint-%d-%d", cx.Seed, i)}
+			switch r.Intn(3) {
+			case 0:
+				c.Ops = append(c.Ops, Op{Kind: OpFile, F: 0, Str: []string{"new", "", "p"}})
+			case 1:
+				c.Ops = append(c.Ops, Op{Kind: OpFile, F: 0, Str: []string{"pathname", "example.com/gen/out", "out"}})
+			default:
+				c.Ops = append(c.Ops, Op{Kind: OpFile, F: 0, Str: []string{"path", "example.com/gen/out", ""}})
+			}
+			if r.Chance(40) {
+				c.Ops = append(c.Ops, Op{Kind: OpSet, F: 0, Str: []string{"prefix", "pkg"}})
+			}
+			hint := func(p string) {
+				switch r.Intn(4) {
+				case 0:
+					c.Ops = append(c.Ops, Op{Kind: OpHintAlias, F: 0, Str: []string{p, "."}})
+				case 1:
+					c.Ops = append(c.Ops, Op{Kind: OpHintAlias, F: 0, Str: []string{p, genIdent(r)}})
+				case 2:
+					c.Ops = append(c.Ops, Op{Kind: OpHintName, F: 0, Str: []string{p, genIdent(r)}})
+				default:
+					kv := [][2]string{{p, genIdent(r)}}
+					for _, q := range pool.Paths {
+						if q != p && r.Chance(30) {
+							kv = append(kv, [2]string{q, genIdent(r)})
+						}
+					}
+					c.Ops = append(c.Ops, Op{Kind: OpHintNames, F: 0, KV: kv})
+				}
+			}
+			for _, p := range pool.Paths[:5] {
+				if r.Chance(60) {
+					c.Ops = append(c.Ops, Op{Kind: OpHintAlias, F: 0, Str: []string{p, "."}})
+				} else if r.Chance(40) {
+					hint(p)
+				}
+			}
+			reg := 0
+			rounds := 2 + r.Intn(2)
+			for k := 0; k < rounds; k++ {
+				for _, s := range importBody(r, pool, 1+r.Intn(4)) {
+					c.Ops = append(c.Ops, addToFile(r, 0, s, &reg)...)
+				}
+				c.Ops = append(c.Ops, Op{Kind: OpRender, F: 0})
+				for _, p := range pool.Paths[:5] {
+					if r.Chance(50) {
+						hint(p)
+					}
+				}
 			}
 			c.Ops = append(c.Ops, Op{Kind: OpRender, F: 0})
 			cs = append(cs, c)
